@@ -23,6 +23,8 @@
     html_closers_take_last_position xml_text_position
     html_text_cutting_irrelevant xml_text_cutting_irrelevant
     html_api_total
+    xml_qname_of_expat_name_partial xml_plain_name xml_brace_uri_loses_its_brace
+    html_event_kinds
 -/
 import Genshi.Lemmas.ParseHtml
 import Genshi.Lemmas.ParseXml
@@ -30,6 +32,7 @@ import Genshi.Lemmas.ParseTree
 import Genshi.Lemmas.ParseContent
 import Genshi.Lemmas.ParsePos
 import Genshi.Lemmas.ParseSplit
+import Genshi.Lemmas.ParseKinds
 namespace Genshi.Props.C07
 open Genshi Genshi.Parse
 
@@ -118,6 +121,18 @@ theorem html_stream_is_forest (env : Env) (reads : List HtmlRead) (close : List 
     ∃ ns, (okList ns = true ∧ flattenList ns = s) ∧
       ∀ ms, okList ms = true → flattenList ms = s → ms = ns :=
   wellNested_unique_forest s (html_events_wellnested env reads close s h).1
+
+/-- documented kinds: whatever `HTMLParser` delivers (also before a failure) is a START, END, TEXT,
+    COMMENT or PI event — never a DOCTYPE, XML declaration, namespace or CDATA event -/
+theorem html_event_kinds (env : Env) (reads : List HtmlRead) (close : List (Item HtmlCb)) (e : Event)
+    (h : e ∈ (htmlParse env reads close).1) : htmlKind e = true := by
+  obtain ⟨_, h2, _⟩ := parse_vs_eager (htmlLayer env) htmlHandler [] (reads.map HtmlReadG.toRead) close
+  obtain ⟨t, ht⟩ := h2
+  have hm : e ∈ coalesce (eager (htmlLayer env) [] ((reads.map HtmlReadG.toRead).flatMap Read.toItems ++ close)).1 := by
+    rw [← ht]; exact List.mem_append_left _ h
+  rcases mem_coalesceGo true _ none e hm with h' | h'
+  · exact isText_htmlKind e h'
+  · exact eager_html_kinds env _ [] e h'
 
 /-- documented types: TEXT data is a plain `str` (never `Markup`), also in what is delivered before a failure -/
 theorem html_text_is_plain (env : Env) (reads : List HtmlRead) (close : List (Item HtmlCb)) (t : Str) (b : Bool)
@@ -374,6 +389,29 @@ theorem xml_text_cutting_irrelevant (reads reads' : List XmlRead) (close close' 
     (xmlParse reads close).2 = (xmlParse reads' close').2 ∧
     ((xmlParse reads close).2 = none → (xmlParse reads close).1 = (xmlParse reads' close').1) :=
   parse_mergeData_congr xmlData xmlHandler () _ _ close close' h
+
+/-- **Qualified names.** Expat reports a namespaced name as `uri}local`; the layer hands `QName` that
+    string. FULL STATEMENT (what "the same qualified names as an independent parser" needs):
+        ∀ uri local, '}' ∉ uri → uri ≠ [] → mkQName (uri ++ '}' :: local) = ⟨uri, local⟩
+    (Expat itself refuses URIs containing the separator `}`.)  Proved with the extra hypothesis that the
+    URI does not begin with `{` — `QName` strips leading braces (known finding C07-xml-brace-namespace,
+    witness `xml_brace_uri_loses_its_brace`). -/
+theorem xml_qname_of_expat_name_partial (uri loc : Str) (h1 : '}' ∉ uri) (h3 : uri ≠ [])
+    (h2 : uri.head? ≠ some '{') : mkQName (uri ++ '}' :: loc) = ⟨uri, loc⟩ :=
+  mkQName_expat_name uri loc h1 h2 h3
+
+/-- names without namespace are kept (XML names contain no braces) -/
+theorem xml_plain_name (s : Str) (h1 : '}' ∉ s) (h2 : s.head? ≠ some '{') : mkQName s = ⟨[], s⟩ :=
+  mkQName_plain_name s h1 h2
+
+/-- the full statement is false of the model: for `<a xmlns="{u"/>` Expat reports START_NS `{u` and the
+    element name `{u}a`; the START event carries the namespace `u` -/
+theorem xml_brace_uri_loses_its_brace :
+    mkQName (['{','u'] ++ '}' :: ['a']) ≠ ⟨['{','u'], ['a']⟩ ∧
+    (xmlParse [.chunk [.cb (.startNs none (some ['{','u'])), .cb (.startElement ['{','u','}','a'] []),
+                       .cb (.endElement ['{','u','}','a']), .cb (.endNs none)]] []).1 =
+      [.startNs [] ['{','u'], .start ⟨['u'], ['a']⟩ [], .end_ ⟨['u'], ['a']⟩, .endNs []] := by
+  decide
 
 /-- **xml_errors_are_parseerror_with_line.** The first failure among the concatenated batches decides:
     an `ExpatError` — raised by Expat or by `_handle_other` for an undefined entity — leaves as
